@@ -437,7 +437,7 @@ func specMapped(m *mappedFile) bool {
 //@   ensures err == nil ==> specMapped(result0) && fresh(result0) && fresh(result0.mapping) && fresh(result0.mapping.Data)
 //@   ensures err == nil ==> int64(len(result0.mapping.Data)) >= int64($minsize)
 //@   ensures err != nil ==> result0 == nil
-//@   modifies $minsize
+//@   modifies $minsize, $fsops
 
 //@ contract (*mappedFile).close
 //@   requires m.mapping == nil || mmap.SpecValid(m.mapping)
@@ -450,7 +450,7 @@ func specMapped(m *mappedFile) bool {
 //@   ensures result1 == nil ==> fresh(result0.mapping) && fresh(result0.mapping.Data)
 //@   ensures result1 == nil && end <= 1<<31 ==> int64(len(result0.mapping.Data)) >= int64(end)
 //@   ensures result1 != nil ==> result0 == nil
-//@   modifies $minsize
+//@   modifies $minsize, $fsops
 
 // newCounter. G1: the limit only grows, stays 32-aligned and inside the
 // mapping; G2: the record is written inside the reservation just won; G3: the
@@ -469,7 +469,7 @@ func specMapped(m *mappedFile) bool {
 //@   at call cas32#1: assert int64(end) <= int64(len(m.mapping.Data))
 //@   at call cas32#1: assert specPlaceOK(m.hdrLen, limit, len(name)) ==> end > limit && end%32 == 0 && end > specFirst(m.hdrLen, limit)
 //@   at call writeEntryAt#1: assert specPlaceOK(m.hdrLen, limit, len(name)) ==> specFirst(m.hdrLen, limit) <= start && int64(start)+16+int64(len(name)) <= int64(end)
-//@   modifies elems(m.mapping.Data), $minsize
+//@   modifies elems(m.mapping.Data), $minsize, $fsops
 
 // ---------------------------------------------------------------------------
 // C05: the file object shared by all counters.
@@ -495,23 +495,23 @@ func specMapped(m *mappedFile) bool {
 //@   at call Load#1: after assume result == nil || result.file != nil
 //@   at call Load#2: after assume result != nil && result.file != nil
 //@   at call Load#3: after assume result != nil && result.file != nil
-//@   modifies heap
+//@   modifies heap, $ledger, $lost
 
 //@ contract (*file).newCounter1
-//@   modifies heap
+//@   modifies heap, $minsize, $fsops
 
 //@ contract (*file).rotate1
 //@   requires $rd == 0 && $lk == 0
-//@   modifies heap
+//@   modifies heap, $fsops, $minsize, $now, $weekend, $ledger, $lost
 
 //@ contract (*file).rotate
 //@   requires $rd == 0 && $lk == 0
-//@   modifies heap
+//@   modifies heap, $fsops, $minsize, $now, $weekend, $ledger, $lost
 
 //@ contract Open
 //@   requires $rd == 0 && $lk == 0
 //@   allows panic#1: documented API misuse: Open and OpenAndRotate must not both be used in one process
-//@   modifies heap
+//@   modifies heap, $fsops, $minsize, $now, $weekend, $ledger, $lost
 
 // ---------------------------------------------------------------------------
 // C15 / C05: stack counters
@@ -551,7 +551,7 @@ func specMapped(m *mappedFile) bool {
 //@   requires forall i int :: 0 <= i && i < len(c.stacks) && c.stacks[i].counter != nil ==> c.stacks[i].counter.file != nil
 //@   loop 1: invariant -1 <= rangeindex && rangeindex < len(c.stacks)
 //@   loop 1: decreases len(c.stacks)-rangeindex
-//@   modifies heap
+//@   modifies heap, $ledger, $lost
 
 // ---------------------------------------------------------------------------
 // C09: the week a counter file covers.
